@@ -1,68 +1,63 @@
 import S3V.Spec.XmlMeaning
 import S3V.Thm.XmlRoundtrip
+import S3V.Thm.XmlUtf8b
 /-!
-An accepted string element is given its XML meaning — when its character data is not interrupted.
+An accepted scalar element is given its XML meaning: whatever mix of text pieces with references, CDATA sections,
+comments and PIs its character data is written as, the text `Deserializer::text` hands to the scalar parser
+unescapes to the string the run denotes (code since c575458).
 -/
 namespace S3V.XmlSpec
 open S3V S3V.Xml
 
-def QEv.isTextEv : QEv → Bool
-  | .text _ => true
-  | _ => false
-
-def QEv.isNonEmptyCdata : QEv → Bool
-  | .cdata c => !c.isEmpty
-  | _ => false
-
-/-- the excluded region of `C13_decode_meaning_partial`, as a decidable predicate: the run contains a non-empty CDATA
-section (finding `xml-cdata-dropped`) or more than one text piece, i.e. text interrupted by a comment, PI or CDATA
-section (finding `xml-comment-splits-text`) -/
-def interrupted (run : List QEv) : Bool :=
-  run.any QEv.isNonEmptyCdata || decide ((run.filter QEv.isTextEv).length > 1)
-
-/-- a run without text and without non-empty CDATA denotes the empty string and is invisible to the deserialiser -/
-theorem quiet_run (name : Bytes) (rest : List QEv) : ∀ (run : List QEv) (m : Bytes),
-    charsMeaning run = some m → run.any QEv.isNonEmptyCdata = false → run.filter QEv.isTextEv = [] →
-    m = [] ∧ deEvents (run ++ .stop name :: rest) = .stop name :: deEvents rest
-  | [], m, hm, _, _ => by simp [charsMeaning] at hm; simp [hm, deEvents]
-  | .text raw :: r, m, _, _, ht => by simp [QEv.isTextEv] at ht
-  | .cdata c :: r, m, hm, hc, ht => by
-    simp only [List.any_cons, Bool.or_eq_false_iff, QEv.isNonEmptyCdata, Bool.not_eq_false',
-      List.isEmpty_iff] at hc
-    simp only [charsMeaning, Option.map_eq_some_iff] at hm
-    obtain ⟨m', hm', he⟩ := hm
-    have := quiet_run name rest r m' hm' hc.2 (by simpa [QEv.isTextEv] using ht)
-    subst he
-    simp [hc.1, this.1, deEvents, this.2]
-  | .comment :: r, m, hm, hc, ht => by
-    have := quiet_run name rest r m (by simpa [charsMeaning] using hm) (by simpa [QEv.isNonEmptyCdata] using hc)
-      (by simpa [QEv.isTextEv] using ht)
-    simp [deEvents, this.1, this.2]
-  | .pi :: r, m, hm, hc, ht => by
-    have := quiet_run name rest r m (by simpa [charsMeaning] using hm) (by simpa [QEv.isNonEmptyCdata] using hc)
-      (by simpa [QEv.isTextEv] using ht)
-    simp [deEvents, this.1, this.2]
-  | .start _ _ :: _, _, hm, _, _ | .stop _ :: _, _, hm, _, _ | .empty _ _ :: _, _, hm, _, _
-  | .decl :: _, _, hm, _, _ | .doctype :: _, _, hm, _, _ | .err :: _, _, hm, _, _ => by simp [charsMeaning] at hm
-
 theorem utf8Valid_nil : utf8Valid [] = true := by decide
 
-theorem read_uninterrupted (X : Ext) (name : Bytes) (rest : List QEv) : ∀ (run : List QEv) (m : Bytes),
-    charsMeaning run = some m → interrupted run = false →
-    readStringElement X name (deEvents (run ++ .stop name :: rest)) = .ok (.str m, deEvents rest)
-  | [], m, hm, _ => by
+/-- the meaning of a run is valid UTF-8 -/
+theorem charsMeaning_valid : ∀ (run : List QEv) (m : Bytes), charsMeaning run = some m → utf8Valid m = true
+  | [], m, h => by simp [charsMeaning] at h; subst h; exact utf8Valid_nil
+  | .text raw :: r, m, h => by
+    simp only [charsMeaning] at h
+    split at h
+    · rename_i hv
+      cases hu : unescape raw with
+      | none => simp [hu] at h
+      | some a =>
+        cases hr : charsMeaning r with
+        | none => simp [hu, hr] at h
+        | some b =>
+          simp only [hu, hr, Option.some.injEq] at h
+          subst h
+          exact utf8Valid_append (utf8Valid_unescape hv hu) (charsMeaning_valid r b hr)
+    · cases h
+  | .cdata c :: r, m, h => by
+    simp only [charsMeaning] at h
+    split at h
+    · rename_i hv
+      simp only [Option.map_eq_some_iff] at h
+      obtain ⟨b, hb, he⟩ := h
+      subst he
+      exact utf8Valid_append hv (charsMeaning_valid r b hb)
+    · cases h
+  | .comment :: r, m, h => charsMeaning_valid r m (by simpa [charsMeaning] using h)
+  | .pi :: r, m, h => charsMeaning_valid r m (by simpa [charsMeaning] using h)
+  | .start _ _ :: _, _, h | .stop _ :: _, _, h | .empty _ _ :: _, _, h
+  | .decl :: _, _, h | .doctype :: _, _, h | .err :: _, _, h => by simp [charsMeaning] at h
+
+theorem decodeStr_ok {raw a : Bytes} (hv : utf8Valid raw = true) (hu : unescape raw = some a) : decodeStr raw = .ok a := by
+  simp [decodeStr, hv, hu]
+
+theorem decodeStr_escape_valid {s : Bytes} (hs : utf8Valid s = true) : decodeStr (escape s) = .ok s :=
+  decodeStr_escape (utf8Valid_escape hs)
+
+/-- the loop of `Deserializer::text` once it is in the joined state -/
+theorem textLoop_joined (name : Bytes) (rest : List QEv) : ∀ (run : List QEv) (s m : Bytes),
+    utf8Valid s = true → charsMeaning run = some m →
+    textLoop none (some s) (deEvents (run ++ .stop name :: rest))
+      = .ok (escape (s ++ m), .stop name :: deEvents rest)
+  | [], s, m, _, hm => by
     simp only [charsMeaning, Option.some.injEq] at hm
     subst hm
-    have hd : decode X .str (.stop name :: deEvents rest) = .ok (.str [], .stop name :: deEvents rest) :=
-      decode_scalar_ok X .str (raw := []) rfl (by simp [textOf])
-        (by simp [decodeScalarText, decodeStr, utf8Valid_nil, unescape, Except.map])
-    simp [readStringElement, deEvents, hd, expectEnd_stop]
-  | .text raw :: r, m, hm, hi => by
-    simp only [interrupted, List.any_cons, QEv.isNonEmptyCdata, Bool.false_or, List.filter_cons, QEv.isTextEv,
-      if_true, List.length_cons, Bool.or_eq_false_iff, decide_eq_false_iff_not] at hi
-    have hnot : r.filter QEv.isTextEv = [] := by
-      have : (r.filter QEv.isTextEv).length = 0 := by omega
-      exact List.length_eq_zero_iff.mp this
+    simp [deEvents, textLoop]
+  | .text raw :: r, s, m, hs, hm => by
     simp only [charsMeaning] at hm
     split at hm
     · rename_i hv
@@ -73,37 +68,141 @@ theorem read_uninterrupted (X : Ext) (name : Bytes) (rest : List QEv) : ∀ (run
         | none => simp [hu, hr] at hm
         | some b =>
           simp only [hu, hr, Option.some.injEq] at hm
-          have hq := quiet_run name rest r b hr hi.1 hnot
-          have hb : b = [] := hq.1
-          subst hb
-          simp only [List.append_nil] at hm
           subst hm
-          have hd : decode X .str (.text raw :: .stop name :: deEvents rest) = .ok (.str a, .stop name :: deEvents rest) :=
-            decode_scalar_ok X .str (raw := raw) rfl (by simp [textOf])
-              (by simp [decodeScalarText, decodeStr, hv, hu, Except.map])
-          simp [readStringElement, deEvents, hq.2, hd, expectEnd_stop]
+          have ih := textLoop_joined name rest r (s ++ a) b
+            (utf8Valid_append hs (utf8Valid_unescape hv hu)) hr
+          simp only [List.cons_append, deEvents, textLoop, Option.isNone_none, Option.isNone_some, Bool.and_false,
+            Bool.false_eq_true, if_false, joinedText, Option.getD_some, decodeStr_ok hv hu, ih, List.append_assoc]
     · cases hm
-  | .cdata c :: r, m, hm, hi => by
-    simp only [interrupted, List.any_cons, QEv.isNonEmptyCdata, List.filter_cons, QEv.isTextEv,
-      Bool.or_eq_false_iff, Bool.not_eq_false', List.isEmpty_iff] at hi
-    simp only [charsMeaning, Option.map_eq_some_iff] at hm
-    obtain ⟨m', hm', he⟩ := hm
-    have hc : c = [] := hi.1.1
-    subst hc
-    simp only [List.nil_append] at he
-    subst he
-    have h2 : ¬ (r.filter QEv.isTextEv).length > 1 := by simpa using hi.2
-    have := read_uninterrupted X name rest r m' hm' (by simp [interrupted, hi.1.2]; omega)
+  | .cdata c :: r, s, m, hs, hm => by
+    simp only [charsMeaning] at hm
+    split at hm
+    · rename_i hv
+      simp only [Option.map_eq_some_iff] at hm
+      obtain ⟨b, hb, he⟩ := hm
+      subst he
+      have ih := textLoop_joined name rest r (s ++ c) b (utf8Valid_append hs hv) hb
+      simp only [List.cons_append, deEvents, textLoop, joinedText, Option.getD_some, hv, if_true, ih,
+        List.append_assoc]
+    · cases hm
+  | .comment :: r, s, m, hs, hm => by
+    have := textLoop_joined name rest r s m hs (by simpa [charsMeaning] using hm)
     simpa [deEvents] using this
-  | .comment :: r, m, hm, hi => by
-    have := read_uninterrupted X name rest r m (by simpa [charsMeaning] using hm)
-      (by simpa [interrupted, QEv.isNonEmptyCdata, QEv.isTextEv] using hi)
+  | .pi :: r, s, m, hs, hm => by
+    have := textLoop_joined name rest r s m hs (by simpa [charsMeaning] using hm)
     simpa [deEvents] using this
-  | .pi :: r, m, hm, hi => by
-    have := read_uninterrupted X name rest r m (by simpa [charsMeaning] using hm)
-      (by simpa [interrupted, QEv.isNonEmptyCdata, QEv.isTextEv] using hi)
+  | .start _ _ :: _, _, _, _, hm | .stop _ :: _, _, _, _, hm | .empty _ _ :: _, _, _, _, hm
+  | .decl :: _, _, _, _, hm | .doctype :: _, _, _, _, hm | .err :: _, _, _, _, hm => by simp [charsMeaning] at hm
+
+/-- … while it still holds one text piece `x` untouched -/
+theorem textLoop_single (name : Bytes) (rest : List QEv) (x ax : Bytes) (hx : utf8Valid x = true)
+    (hux : unescape x = some ax) : ∀ (run : List QEv) (m : Bytes), charsMeaning run = some m →
+    ∃ raw, textLoop (some x) none (deEvents (run ++ .stop name :: rest)) = .ok (raw, .stop name :: deEvents rest) ∧
+      decodeStr raw = .ok (ax ++ m)
+  | [], m, hm => by
+    simp only [charsMeaning, Option.some.injEq] at hm
+    subst hm
+    exact ⟨x, by simp [deEvents, textLoop], by simpa using decodeStr_ok hx hux⟩
+  | .text raw :: r, m, hm => by
+    simp only [charsMeaning] at hm
+    split at hm
+    · rename_i hv
+      cases hu : unescape raw with
+      | none => simp [hu] at hm
+      | some a =>
+        cases hr : charsMeaning r with
+        | none => simp [hu, hr] at hm
+        | some b =>
+          simp only [hu, hr, Option.some.injEq] at hm
+          subst hm
+          have hax := utf8Valid_unescape hx hux
+          have ha := utf8Valid_unescape hv hu
+          have hj := textLoop_joined name rest r (ax ++ a) b (utf8Valid_append hax ha) hr
+          refine ⟨escape ((ax ++ a) ++ b), ?_, ?_⟩
+          · simp only [List.cons_append, deEvents, textLoop, Option.isNone_none, Option.isNone_some, Bool.false_and,
+              Bool.false_eq_true, if_false, joinedText, Option.getD_none, List.nil_append, decodeStr_ok hx hux,
+              decodeStr_ok hv hu, hj]
+          · rw [List.append_assoc]
+            exact decodeStr_escape_valid (utf8Valid_append hax (utf8Valid_append ha (charsMeaning_valid r b hr)))
+    · cases hm
+  | .cdata c :: r, m, hm => by
+    simp only [charsMeaning] at hm
+    split at hm
+    · rename_i hv
+      simp only [Option.map_eq_some_iff] at hm
+      obtain ⟨b, hb, he⟩ := hm
+      subst he
+      have hax := utf8Valid_unescape hx hux
+      have hj := textLoop_joined name rest r (ax ++ c) b (utf8Valid_append hax hv) hb
+      refine ⟨escape ((ax ++ c) ++ b), ?_, ?_⟩
+      · simp only [List.cons_append, deEvents, textLoop, joinedText, Option.getD_none, List.nil_append,
+          decodeStr_ok hx hux, hv, if_true, hj]
+      · rw [List.append_assoc]
+        exact decodeStr_escape_valid (utf8Valid_append hax (utf8Valid_append hv (charsMeaning_valid r b hb)))
+    · cases hm
+  | .comment :: r, m, hm => by
+    have := textLoop_single name rest x ax hx hux r m (by simpa [charsMeaning] using hm)
     simpa [deEvents] using this
-  | .start _ _ :: _, _, hm, _ | .stop _ :: _, _, hm, _ | .empty _ _ :: _, _, hm, _
-  | .decl :: _, _, hm, _ | .doctype :: _, _, hm, _ | .err :: _, _, hm, _ => by simp [charsMeaning] at hm
+  | .pi :: r, m, hm => by
+    have := textLoop_single name rest x ax hx hux r m (by simpa [charsMeaning] using hm)
+    simpa [deEvents] using this
+  | .start _ _ :: _, _, hm | .stop _ :: _, _, hm | .empty _ _ :: _, _, hm
+  | .decl :: _, _, hm | .doctype :: _, _, hm | .err :: _, _, hm => by simp [charsMeaning] at hm
+
+/-- **`Deserializer::text` hands the scalar parser a text that unescapes to the meaning of the element's character
+data** — for every run of text pieces, CDATA sections, comments and PIs -/
+theorem textOf_meaning (name : Bytes) (rest : List QEv) : ∀ (run : List QEv) (m : Bytes), charsMeaning run = some m →
+    ∃ raw, textOf (deEvents (run ++ .stop name :: rest)) = .ok (raw, .stop name :: deEvents rest) ∧
+      decodeStr raw = .ok m
+  | [], m, hm => by
+    simp only [charsMeaning, Option.some.injEq] at hm
+    subst hm
+    exact ⟨[], by simp [textOf, deEvents, textLoop], by simp [decodeStr, utf8Valid_nil, unescape]⟩
+  | .text raw :: r, m, hm => by
+    simp only [charsMeaning] at hm
+    split at hm
+    · rename_i hv
+      cases hu : unescape raw with
+      | none => simp [hu] at hm
+      | some a =>
+        cases hr : charsMeaning r with
+        | none => simp [hu, hr] at hm
+        | some b =>
+          simp only [hu, hr, Option.some.injEq] at hm
+          subst hm
+          obtain ⟨raw', h1, h2⟩ := textLoop_single name rest raw a hv hu r b hr
+          refine ⟨raw', ?_, h2⟩
+          simp only [textOf, List.cons_append, deEvents, textLoop, Option.isNone_none, Bool.and_self, if_true]
+          exact h1
+    · cases hm
+  | .cdata c :: r, m, hm => by
+    simp only [charsMeaning] at hm
+    split at hm
+    · rename_i hv
+      simp only [Option.map_eq_some_iff] at hm
+      obtain ⟨b, hb, he⟩ := hm
+      subst he
+      have hj := textLoop_joined name rest r c b hv hb
+      refine ⟨escape (c ++ b), ?_, decodeStr_escape_valid (utf8Valid_append hv (charsMeaning_valid r b hb))⟩
+      simp only [textOf, List.cons_append, deEvents, textLoop, joinedText, Option.getD_none, List.nil_append, hv,
+        if_true, hj]
+    · cases hm
+  | .comment :: r, m, hm => by
+    have := textOf_meaning name rest r m (by simpa [charsMeaning] using hm)
+    simpa [deEvents] using this
+  | .pi :: r, m, hm => by
+    have := textOf_meaning name rest r m (by simpa [charsMeaning] using hm)
+    simpa [deEvents] using this
+  | .start _ _ :: _, _, hm | .stop _ :: _, _, hm | .empty _ _ :: _, _, hm
+  | .decl :: _, _, hm | .doctype :: _, _, hm | .err :: _, _, hm => by simp [charsMeaning] at hm
+
+/-- a string element is read as the string its character data denotes -/
+theorem readString_meaning (X : Ext) (name : Bytes) (rest : List QEv) (run : List QEv) (m : Bytes)
+    (hm : charsMeaning run = some m) :
+    readStringElement X name (deEvents (run ++ .stop name :: rest)) = .ok (.str m, deEvents rest) := by
+  obtain ⟨raw, h1, h2⟩ := textOf_meaning name rest run m hm
+  have hd : decode X .str (deEvents (run ++ .stop name :: rest)) = .ok (.str m, .stop name :: deEvents rest) :=
+    decode_scalar_ok X .str rfl h1 (by simp [decodeScalarText, h2, Except.map])
+  simp [readStringElement, hd, expectEnd_stop]
 
 end S3V.XmlSpec
